@@ -68,7 +68,8 @@ def sizePreamble (len : Nat) (ext : Bool) (lbP ubP : Option Int) : Res (Bits × 
     | none => .ok ([], l, -1, -1)
     | some u =>
       if (len : Int) ≤ u then
-        .ok (if ext then [false] else [], l, u, if u > 65535 then -1 else u - l + 1)
+        -- with an upper bound of 64K or more the length itself is encoded (lb := 0; the repair of F24)
+        .ok (if ext then [false] else [], if u > 65535 then 0 else l, u, if u > 65535 then -1 else u - l + 1)
       else if !ext then err
       else .ok ([true], 0, u, -1)
 
@@ -314,6 +315,88 @@ def encSeqFields (f : Nat → Ty → Params → Val → Res Bits) (rfv : Ty → 
           | .error e => .error e
           | .ok b => .ok (a ++ b)
 
+/-- element parameters of a SEQUENCE OF: the field's parameters without the size constraint -/
+def stripSizeE (params : Params) : Params := { params with sizeExt := false, sizeUB := none, sizeLB := none }
+
+/-- header of `parseSequenceOf` (encoder): (extension bit, lb, ub, sizeRange) -/
+def sliceHeader (params : Params) (n : Nat) : Res (Bits × Int × Int × Int) :=
+  let lb : Int := match params.sizeLB with | some l => if l < 65536 then l else 0 | none => 0
+  match params.sizeUB with
+  | some u =>
+    if u < 65536 then
+      if params.sizeExt then
+        if (n : Int) > u then .ok ([true], lb, u, -1) else .ok ([false], lb, u, u - lb + 1)
+      else if (n : Int) > u then err
+      else .ok ([], lb, u, u - lb + 1)
+    else .ok ([], lb, -1, -1)
+  | none => .ok ([], lb, -1, -1)
+
+/-- the element count of a SEQUENCE OF as written by the encoder -/
+def sliceCountBits (pos1 : Nat) (n : Nat) (lb ub sizeRange : Int) : Res Bits :=
+  if (n : Int) < lb then err
+  else if sizeRange = 1 then (if (n : Int) ≠ ub then err else .ok [])
+  else if sizeRange > 0 then appendConstraintValue pos1 sizeRange ((n : Int) - lb).toNat
+  else if n ≥ 16384 then err                       -- would need a fragmented length: refused
+  else appendLength pos1 (-1) n                    -- general length determinant (the repair of F25)
+
+/-- SEQUENCE OF: `f` encodes one element at a position -/
+def encSlice (f : Nat → Val → Res Bits) (params : Params) (pos : Nat) (vs : List Val) : Res Bits :=
+  match sliceHeader params vs.length with
+  | .error e => .error e
+  | .ok (pre, lb, ub, sizeRange) =>
+    let pos1 := pos + pre.length
+    match sliceCountBits pos1 vs.length lb ub sizeRange with
+    | .error e => .error e
+    | .ok cb =>
+      match encElems f (pos1 + cb.length) vs with
+      | .error e => .error e
+      | .ok eb => .ok (pre ++ cb ++ eb)
+
+/-- SEQUENCE body: OPTIONAL bitmap, then the components -/
+def encSeq (f : Nat → Ty → Params → Val → Res Bits) (rfv : Ty → Val → Res Int) (sd : StructDef)
+    (pos1 : Nat) (fs : List Val) : Res Bits :=
+  if fs.length ≠ sd.fields.length then err else
+  match optBitmap sd.fields fs with
+  | .error e => .error e
+  | .ok bm =>
+    match encSeqFields f rfv sd.fields fs 0 (pos1 + bm.length) sd.fields fs with
+    | .error e => .error e
+    | .ok body => .ok (bm ++ body)
+
+/-- open type: the inner encoding, padded to whole octets, behind a length determinant (`appendOpenType`) -/
+def encOpenType (pos1 : Nat) (inner : Bits) : Res Bits :=
+  let nOct := (inner.length + 7) / 8
+  fragLoop 8 (-1) 0 (nOct / 16384 + 2) pos1 nOct (inner ++ alignBits inner.length)
+
+/-- CHOICE / open-type body -/
+def encChoice (f : Nat → Ty → Params → Val → Res Bits) (sd : StructDef) (params : Params)
+    (pos1 : Nat) (fs : List Val) : Res Bits :=
+  match fs with
+  | .int p :: _ =>
+    if p ≤ 0 then err
+    else if p.toNat ≥ sd.fields.length then err
+    else
+      match sd.fields[p.toNat]?, fs[p.toNat]? with
+      | some fd, some alt =>
+        if params.openType then
+          match params.refValue with
+          | none => err
+          | some rv =>
+            if fd.params.refValue ≠ some rv then err
+            else
+              match f 0 fd.ty fd.params alt with
+              | .error e => .error e
+              | .ok inner => encOpenType pos1 inner
+        else
+          match appendChoiceIndex pos1 p.toNat params.valueExt params.valueUB with
+          | .error e => .error e
+          | .ok ib =>
+            match f (pos1 + ib.length) fd.ty fd.params alt with
+            | .error e => .error e
+            | .ok ab => .ok (ib ++ ab)
+      | _, _ => err
+  | _ => err
+
 /-- `makeField(v, params)` with `v` of type `ty`. `fuel` bounds the nesting depth (types are finite and acyclic). -/
 def encField (env : Env) : Nat → Nat → Ty → Params → Val → Res Bits
   | 0, _, _, _, _ => hang
@@ -329,83 +412,18 @@ def encField (env : Env) : Nat → Nat → Ty → Params → Val → Res Bits
     | .bool, .bool b => .ok [b]
     | .int, .int n => appendInteger pos n params.valueExt params.valueLB params.valueUB
     | .slice t, .slice vs =>
-      -- parseSequenceOf
-      let n : Int := vs.length
-      let lb : Int := match params.sizeLB with | some l => if l < 65536 then l else 0 | none => 0
-      let hdr : Res (Bits × Int × Int) :=        -- (extension bit, ub, sizeRange)
-        match params.sizeUB with
-        | some u =>
-          if u < 65536 then
-            if params.sizeExt then
-              if n > u then .ok ([true], u, -1) else .ok ([false], u, u - lb + 1)
-            else if n > u then err
-            else .ok ([], u, u - lb + 1)
-          else .ok ([], -1, -1)
-        | none => .ok ([], -1, -1)
-      match hdr with
-      | .error e => .error e
-      | .ok (pre, ub, sizeRange) =>
-        let pos1 := pos + pre.length
-        let cnt : Res Bits :=
-          if n < lb then err
-          else if sizeRange = 1 then (if n ≠ ub then err else .ok [])
-          else if sizeRange > 0 then appendConstraintValue pos1 sizeRange (n - lb).toNat
-          else .ok (alignBits pos1 ++ natToBits 8 vs.length)
-        match cnt with
-        | .error e => .error e
-        | .ok cb =>
-          let ep := { params with sizeExt := false, sizeUB := none, sizeLB := none }
-          match encElems (fun p v => encField env fuel p t ep v) (pos1 + cb.length) vs with
-          | .error e => .error e
-          | .ok eb => .ok (pre ++ cb ++ eb)
+      encSlice (fun p v => encField env fuel p t (stripSizeE params) v) params pos vs
     | .struct id, .struct fs =>
       match env[id]? with
       | none => err
       | some sd =>
         let pre : Bits := if params.valueExt then [false] else []
-        let pos1 := pos + pre.length
-        if !(isChoice sd) then
-          -- SEQUENCE
-          if fs.length ≠ sd.fields.length then err else
-          match optBitmap sd.fields fs with
-          | .error e => .error e
-          | .ok bm =>
-            match encSeqFields (encField env fuel) (refFieldValue env fuel) sd.fields fs 0 (pos1 + bm.length) sd.fields fs with
-            | .error e => .error e
-            | .ok body => .ok (pre ++ bm ++ body)
-        else
-          -- CHOICE or open type
-          match fs with
-          | .int p :: _ =>
-            if p ≤ 0 then err
-            else if p.toNat ≥ sd.fields.length then err
-            else
-              match sd.fields[p.toNat]?, fs[p.toNat]? with
-              | some f, some alt =>
-                if params.openType then
-                  match params.refValue with
-                  | none => err
-                  | some rv =>
-                    if f.params.refValue ≠ some rv then err
-                    else
-                      -- appendOpenType: encode into a fresh buffer, emit length + octets (+ fragments)
-                      match encField env fuel 0 f.ty f.params alt with
-                      | .error e => .error e
-                      | .ok inner =>
-                        let nOct := (inner.length + 7) / 8
-                        let content := inner ++ alignBits inner.length
-                        match fragLoop 8 (-1) 0 (nOct / 16384 + 2) pos1 nOct content with
-                        | .error e => .error e
-                        | .ok b => .ok (pre ++ b)
-                else
-                  match appendChoiceIndex pos1 p.toNat params.valueExt params.valueUB with
-                  | .error e => .error e
-                  | .ok ib =>
-                    match encField env fuel (pos1 + ib.length) f.ty f.params alt with
-                    | .error e => .error e
-                    | .ok ab => .ok (pre ++ ib ++ ab)
-              | _, _ => err
-          | _ => err
+        let body : Res Bits :=
+          if !(isChoice sd) then encSeq (encField env fuel) (refFieldValue env fuel) sd (pos + pre.length) fs
+          else encChoice (encField env fuel) sd params (pos + pre.length) fs
+        match body with
+        | .error e => .error e
+        | .ok b => .ok (pre ++ b)
     | _, _ => err
 
 /-- `aper.MarshalWithParams(val, params)`: the packed octets; an empty encoding becomes one zero octet -/
